@@ -490,6 +490,7 @@ def _run(res, tier, seed, proofs_ok, cov):
                       {'input': {'deck': deck_text, 'args': args},
                        'theorem_or_correspondence': 'tie:reader'},
                       found_input=False)
+    tables_stream(res, tier, rng)
     if errs:
         res.violation('correspondence',
                       'the generated correspondence files do not compile: '
@@ -517,10 +518,68 @@ def _run(res, tier, seed, proofs_ok, cov):
                       found_input=False)
 
 
+def tables_stream(res, tier, rng):
+    '''Malformed stream: synthetic tables (half of them outside every
+    hypothesis) through the real tail + writeT4Geometry and through the model.'''
+    import c08_tables as tab
+    n_tables = 150 if tier == 'quick' else 1500
+    cases, meta = [], []
+    for i in range(n_tables):
+        tables = tab.gen_tables(rng, malformed=i % 2 == 1)
+        cap = tab.capture_of(tables)
+        for skip_dedup in (False, True):
+            exc, text = tab.run_impl(tables, skip_dedup)
+            args = tab.ARGS + (['--skip-deduplication'] if skip_dedup else [])
+            valid = True
+            if text is not None:
+                valid = not exc and not val.validate(
+                    text, want_comp=False, want_geomcomp=False)[0]
+            res.count('tables:' + (exc or 'ok') + (':file' if text is not None
+                                                   else ':no-file'))
+            res.seen(('tables', repr(tables), skip_dedup))
+            term = cap_mod.coq_input(cap, args)
+            obs = cap_mod.coq_observed((exc, text))
+            cases.append(f'({term},\n {obs}, {cap_mod.cbool(valid)})')
+            meta.append((tables, skip_dedup, exc))
+    bad, errs = run_multi('c08_tab', ['check_file', 'check_verdict',
+                                      'check_reader'], cases)
+    n_bad = {k: len(v) for k, v in bad.items()}
+    res.obligation(f'tie:tables ({len(cases)} runs of the real tail of '
+                   'convertMCNPGeometry + writeT4Geometry on synthetic tables, '
+                   'half of them malformed: bytes and exception class = model; '
+                   'model and reader verdicts = validator)',
+                   not any(bad.values()) and not errs, f'{n_bad} {errs[:1]}')
+    for fun in bad:
+        for idx in bad[fun][:5]:
+            tables, skip_dedup, exc = meta[idx]
+            res.violation('correspondence',
+                          f'synthetic tables: {fun} fails (skip_dedup='
+                          f'{skip_dedup}, run raised {exc or "nothing"})',
+                          {'input': {'tables': tables, 'skip_dedup': skip_dedup},
+                           'theorem_or_correspondence': 'tie:tables'},
+                          found_input=False)
+    if errs:
+        res.violation('correspondence', 'tie:tables files do not compile: '
+                      + errs[0][-300:], {'errors': errs[:2]}, found_input=False)
+
+
 def replay(path):
     '''Re-run the recorded input through implementation, validator, model.'''
     data = json.load(open(path))
     inp = data.get('input', {})
+    if 'tables' in inp:
+        import c08_tables as tab
+        tables = inp['tables']
+        tables['vols'] = [tuple(v[:3]) + (None if v[3] is None else tuple(v[3]),)
+                          + (v[4],) for v in tables['vols']]
+        exc, text = tab.run_impl(tables, inp.get('skip_dedup', False))
+        print('implementation:', exc or 'no exception')
+        print(text)
+        args = tab.ARGS + (['--skip-deduplication'] if inp.get('skip_dedup') else [])
+        model, _ = common.coq_eval(HEADER, 'run_model ' + cap_mod.coq_input(
+            tab.capture_of(tables), args))
+        print('model:', model)
+        return 0
     deck_text, args = inp.get('deck'), inp.get('args', [])
     if deck_text is None:
         print('no deck recorded:', data.get('what'))
